@@ -31,6 +31,16 @@ class Ctx:
                 f.node = g.node
                 self.inlined.append(q)
         self.eff = Effects(self.prog)
+        # loops that only fill fresh containers are analysed as the comprehensions that build them (sa/normalise.py)
+        from .normalise import normalise_function, default_purity
+        self.normalised = []
+        for q, f in self.prog.funcs.items():
+            if normalise_function(f.node, default_purity(self.prog, f, self.eff)):
+                self.normalised.append(q)
+        if self.normalised:
+            self.eff = Effects(self.prog)
+        from . import refspec as _refspec
+        _refspec._SPEC_PURITY[0] = (self.prog, self.eff)
         from . import pat, terms
         pat.prepare([f.node for f in self.prog.funcs.values()])
         terms.SIGNATURES.clear()
